@@ -345,8 +345,11 @@ def pool_for(kind):
     if kind in ("dyn", "dynint"):
         return [(repr(i), i) for i in INT_POOL] + [("None", None), ("True", True), ("False", False), ("2.0", 2.0), ("1.5", 1.5),
                                                    ("0.0", 0.0), ("'s'", "s"), ("object()", specrt.Witness())]
-    if kind == "bool":
+    if kind in ("bool", "boolc"):
         return [("True", True), ("False", False)]
+    if kind == "base":
+        return [(repr(i), i) for i in [-1, 0, 1, 2, 3, 8, 10, 11, 15, 16, 17, 36]] + [("True", True), ("2.0", 2.0), ("'10'", "10"),
+                                                                                      ("None", None), ("object()", specrt.Witness())]
     if kind == "newobj":
         return [("<new instance>", NEW)]
     if kind == "classobj":
